@@ -7,15 +7,19 @@
 /* ghost tables of spec/sx.h.  In the proof they are arbitrary arrays (the
  * contracts quantify over every table that satisfies the defining equations);
  * the native replay computes them. */
-const size_t *g_sxW, *g_sxS, *g_sxD, *g_sxX, *g_sxE, *g_sxL;
+const size_t *g_sxW, *g_sxS, *g_sxD, *g_sxX, *g_sxC, *g_sxT, *g_sxE, *g_sxL;
+int g_sx_tabs;   /* 0: tables unconstrained, 1: run tables satisfy their equations, 2: E and L too */
 #if VERIF_IS_NATIVE
 static void sx_tables(const char *s, size_t n)
 {
   size_t *W = calloc(SX_TAB_LEN, sizeof(size_t)), *S = calloc(SX_TAB_LEN, sizeof(size_t)),
          *D = calloc(SX_TAB_LEN, sizeof(size_t)), *X = calloc(SX_TAB_LEN, sizeof(size_t)),
+         *C = calloc(SX_TAB_LEN, sizeof(size_t)), *T = calloc(SX_TAB_LEN, sizeof(size_t)),
          *E = calloc(SX_TAB_LEN, sizeof(size_t)), *L = calloc(SX_TAB_LEN, sizeof(size_t));
-  g_sxW = W; g_sxS = S; g_sxD = D; g_sxX = X; g_sxE = E; g_sxL = L;
+  g_sxW = W; g_sxS = S; g_sxD = D; g_sxX = X; g_sxC = C; g_sxT = T; g_sxE = E; g_sxL = L;
+  g_sx_tabs = 0;
   if (n > SX_QMAX) return;
+  g_sx_tabs = 2;
   W[n] = S[n] = D[n] = X[n] = n; X[n + 1] = n + 1; L[n + 1] = SX_FAIL(n);
   for (size_t k = n; k-- > 0;) {
     W[k] = SPEC_SX_REF_ISSPACE(s[k]) ? W[k + 1] : k;
@@ -23,16 +27,21 @@ static void sx_tables(const char *s, size_t n)
     D[k] = SPEC_SX_REF_ISDIGIT(s[k]) ? D[k + 1] : k;
     X[k] = SPEC_SX_REF_ISXDIGIT(s[k]) ? X[k + 1] : k;
   }
+  for (size_t k = 0; k < n; k++) {
+    C[k] = (size_t)spec_sx_looking_at(s, n, k);
+    T[k] = SX_ATOM_T(s, n, C[k], k);
+  }
   for (size_t k = n + 1; k-- > 0;) {
     const size_t j = W[k];
-    E[k] = SX_EXPR_END(s, n, j);
-    L[k] = SX_TAIL_END(s, n, k, j);
+    E[k] = SX_EXPR_END(n, j);
+    L[k] = SX_TAIL_END(n, k, j);
   }
 }
 #define SX_TABLES(s, n) sx_tables((const char *)(s), (n));
 #else
 #define SX_TABLE_(g) { size_t *t_ = malloc(SX_TAB_LEN * sizeof(size_t)); ASSUME(t_ != NULL); g = t_; }
-#define SX_TABLES(s, n) SX_TABLE_(g_sxW) SX_TABLE_(g_sxS) SX_TABLE_(g_sxD) SX_TABLE_(g_sxX) SX_TABLE_(g_sxE) SX_TABLE_(g_sxL)
+#define SX_TABLES(s, n) SX_TABLE_(g_sxW) SX_TABLE_(g_sxS) SX_TABLE_(g_sxD) SX_TABLE_(g_sxX) SX_TABLE_(g_sxC) SX_TABLE_(g_sxT) SX_TABLE_(g_sxE) SX_TABLE_(g_sxL) \
+  { IN(int, in_tabs) ASSUME(in_tabs >= 0 && in_tabs <= 2); g_sx_tabs = in_tabs; }
 #endif
 
 /* base target of the static-state invariants: a plain harness (no dfcc), the
@@ -251,12 +260,16 @@ void h_tables_ranges(void)
   SX_TABLES(in_s, in_n)
 #if !VERIF_IS_NATIVE
   const size_t n = in_n;
-#define SX_BARE_RUN(R, ISC) ((R)[n] == n && __CPROVER_forall { size_t k_; (k_ < SX_QMAX) ==> ((k_ < n) ==> \
+#define SX_BARE_RUN(R, ISC, k_) ((R)[n] == n && __CPROVER_forall { size_t k_; (k_ < SX_QMAX) ==> ((k_ < n) ==> \
       (R)[k_] == (ISC(s[k_]) ? (R)[k_ + 1] : k_)) })
-  ASSUME(SX_BARE_RUN(g_sxW, SPEC_SX_ISSPACE) && SX_BARE_RUN(g_sxS, SPEC_SX_ISSYMCH)
-         && SX_BARE_RUN(g_sxD, SPEC_SX_ISDIGIT) && SX_BARE_RUN(g_sxX, SPEC_SX_ISXDIGIT) && g_sxX[n + 1] == n + 1);
-  ASSUME(__CPROVER_forall { size_t k_; (k_ < SX_QMAX + 1) ==> ((k_ <= n) ==>
-        (g_sxE[k_] == SX_EXPR_END(s, n, g_sxW[k_]) && g_sxL[k_] == SX_TAIL_END(s, n, k_, g_sxW[k_]))) });
+  ASSUME(SX_BARE_RUN(g_sxW, SPEC_SX_ISSPACE, kw_));
+  ASSUME(SX_BARE_RUN(g_sxS, SPEC_SX_ISSYMCH, ks_));
+  ASSUME(SX_BARE_RUN(g_sxD, SPEC_SX_ISDIGIT, kd_));
+  ASSUME(SX_BARE_RUN(g_sxX, SPEC_SX_ISXDIGIT, kx_) && g_sxX[n + 1] == n + 1);
+  ASSUME(__CPROVER_forall { size_t kc_; (kc_ < SX_QMAX) ==> ((kc_ < n) ==>
+        (g_sxC[kc_] == SX_CLS(s, n, kc_) && g_sxT[kc_] == SX_ATOM_T(s, n, g_sxC[kc_], kc_))) });
+  ASSUME(__CPROVER_forall { size_t ke_; (ke_ < SX_QMAX + 1) ==> ((ke_ <= n) ==>
+        (g_sxE[ke_] == SX_EXPR_END(n, g_sxW[ke_]) && g_sxL[ke_] == SX_TAIL_END(n, ke_, g_sxW[ke_]))) });
   ASSUME(g_sxL[n + 1] == SX_FAIL(n));
 #endif
   IN(size_t, in_k)
@@ -265,6 +278,7 @@ void h_tables_ranges(void)
   CHECK(in_k <= g_sxS[in_k] && g_sxS[in_k] <= in_n, "recurrence => k <= S[k] <= n");
   CHECK(in_k <= g_sxD[in_k] && g_sxD[in_k] <= in_n, "recurrence => k <= D[k] <= n");
   CHECK(in_k <= g_sxX[in_k] && g_sxX[in_k] <= in_n, "recurrence => k <= X[k] <= n");
+  CHECK(in_k >= in_n || g_sxT[in_k] == SX_FAIL(in_n) || (in_k < g_sxT[in_k] && g_sxT[in_k] <= in_n), "recurrence => k < T[k] <= n or FAIL");
   CHECK(g_sxE[in_k] == SX_FAIL(in_n) || (in_k < g_sxE[in_k] && g_sxE[in_k] <= in_n), "recurrence => k < E[k] <= n or FAIL");
   CHECK(g_sxL[in_k] == SX_FAIL(in_n) || (in_k < g_sxL[in_k] && g_sxL[in_k] <= in_n), "recurrence => k < L[k] <= n or FAIL");
   VERIF_CANARY();
